@@ -1,6 +1,7 @@
 package props
 
 import (
+	"strings"
 	"bytes"
 	"fmt"
 	naslog "free5gclib/nas/logger"
@@ -45,8 +46,16 @@ func runC17(ctx *Ctx) {
 	})
 	r.Sample("PlmnIDToNas mcc=208 mnc=93 -> 02f839")
 	// AMF-ID: region(8) set(10) pointer(6)  (TS 23.003 2.10.1)
-	ParallelFor(r, 1<<24, func(l *report.Local, v int) {
+	ParallelFor(r, 2<<24, func(l *report.Local, v int) {
+		// every identifier in lower case and (second half) in upper case: hexadecimal digits in either case are the same value (TS 29.571)
 		s := fmt.Sprintf("%06x", v)
+		if v >= 1<<24 {
+			v -= 1 << 24
+			s = fmt.Sprintf("%06X", v)
+			if v%7 == 3 {
+				s = s[:2] + strings.ToLower(s[2:4]) + s[4:] // mixed case
+			}
+		}
 		var reg uint8
 		var set uint16
 		var ptr uint8
@@ -311,8 +320,16 @@ func runC17(ctx *Ctx) {
 		pco.AddIPAddressAllocationViaNASSignallingUL()
 		pco.AddDNSServerIPv4AddressRequest()
 		pco.AddDNSServerIPv6AddressRequest()
-		e1 := pco.AddDNSServerIPv4Address(net.ParseIP("8.8.4.4"))
-		e2 := pco.AddDNSServerIPv6Address(net.ParseIP("2001:4860:4860::8888"))
+		// the caller goes on using its address variables (the next server is the same net.IP with the last octet bumped)
+		dns4, dns6 := net.ParseIP("8.8.4.4"), net.ParseIP("2001:4860:4860::8888")
+		e1 := pco.AddDNSServerIPv4Address(dns4)
+		e2 := pco.AddDNSServerIPv6Address(dns6)
+		for i := range dns4 {
+			dns4[i] ^= 0xff
+		}
+		for i := range dns6 {
+			dns6[i] ^= 0xff
+		}
 		e3 := pco.AddIPv4LinkMTU(1400)
 		got := pco.Marshal()
 		want := hx("80" + "000a00" + "000d00" + "000300" + "000d0408080404" + "00031020014860486000000000000000008888" + "0010020578")
